@@ -372,6 +372,14 @@ class RIBFamily:
                 # a deviation observed at an operation that is itself malformed (invalid content, empty or unknown network
                 # instance) is a deviation of "malformed operations are rejected in-band without effect" as well
                 mop = rec.get("op") or {}
+                if not mop and rec.get("ev") in ("try", "addend", "adderr") and len(byseg) < 40:
+                    # events of a RIB call carry the operation only at its beginning
+                    for prev in reversed(segs.lines(max(1, ln - 8), ln - 1)):
+                        if prev.get("ev") == "addbegin":
+                            mop = prev.get("op") or {}
+                            break
+                        if prev.get("ev") in ("addend", "adderr", "delete", "reset"):
+                            break
                 if isinstance(mop, dict) and (mop.get("bad") or mop.get("ni") in ("", "nosuchni") or mop.get("gni") == "nosuchni"):
                     owners.add("C12")
                 if ctx.prop in owners:
@@ -1348,7 +1356,7 @@ class ClientFamily(RIBFamily):
 
 
 _CL_SIMS = {"quick": [(dict(MaxSteps=14, MaxOps=8), 40, 40)], "thorough": [(dict(MaxSteps=20, MaxOps=10), 1500, 50)]}
-_CL_EXH = {"quick": [dict(MaxSteps=3, MaxOps=2, FibModes=(True,))], "thorough": [dict(MaxSteps=4, MaxOps=3)]}
+_CL_EXH = {"quick": [dict(MaxSteps=3, MaxOps=2, FibModes=(True,))], "thorough": [dict(MaxSteps=4, MaxOps=3, FibModes=(True,)), dict(MaxSteps=3, MaxOps=2)]}
 for _p in ("C13", "C14"):
     REGISTRY[_p] = ClientFamily(_p,
         mc={"quick": [dict(MaxSteps=7, MaxOps=3)], "thorough": [dict(MaxSteps=9, MaxOps=4)]},
@@ -2468,3 +2476,32 @@ class RibHammerFamily:
 
 REGISTRY["C11"] = CompositeFamily("C11", REGISTRY["C11"].parts + [RibHammerFamily("C11")])
 REGISTRY["C12"] = CompositeFamily("C12", REGISTRY["C12"].parts + [RibHammerFamily("C12")])
+
+
+def c12_rib_directed(ctx):
+    """Every malformation class aimed at a key that is installed and referenced (next-hop 1 in group 1, group 1 under ipv4 k1),
+    as ADD and as REPLACE: FAILED, and afterwards the installed entries, the held set and deletion protection are what they were
+    (the next-hop and the group still cannot be deleted, the top-level entry can)."""
+    out = []
+    classes = {"nh": ["zeroIndex", "nilEntry", "noEntry", "badAddr", "badEnum"], "nhg": ["zeroIndex", "nilEntry", "noEntry", "emptyGroup", "zeroNHInGroup", "nilPayload"],
+               "v4": ["nilEntry", "noEntry", "badPrefix", "zeroGroup", "nilPayload"]}
+    for kind, cs in classes.items():
+        for typ in ("ADD", "REPLACE"):
+            w = [{"a": "reset", "nis": ["DEFAULT", "vrf1"], "fwd": True},
+                 {"a": "op", "op": _op(1, "DEFAULT", "ADD", "nh", 1, noeid=True)}, {"a": "op", "op": _op(2, "DEFAULT", "ADD", "nh", 2, noeid=True)},
+                 {"a": "op", "op": _op(3, "DEFAULT", "ADD", "nhg", 1, nhs=(1, 2), noeid=True)}, {"a": "op", "op": _op(4, "DEFAULT", "ADD", "v4", "k1", g=1, noeid=True)}]
+            oid = 10
+            for c in cs:
+                oid += 1
+                kw = {"nhs": (1,)} if kind == "nhg" else ({"g": 1} if kind == "v4" else {})
+                o = _op(oid, "DEFAULT", typ, kind, "k1" if kind == "v4" else 1, noeid=True, **kw)
+                o["bad"] = c
+                w.append({"a": "op", "op": o})
+            w += [{"a": "op", "op": _op(30, "DEFAULT", "DELETE", "nh", 1, noeid=True)}, {"a": "op", "op": _op(31, "DEFAULT", "DELETE", "nh", 2, noeid=True)},
+                  {"a": "op", "op": _op(32, "DEFAULT", "DELETE", "nhg", 1, noeid=True)}, {"a": "op", "op": _op(33, "DEFAULT", "DELETE", "v4", "k1", noeid=True)},
+                  {"a": "op", "op": _op(34, "DEFAULT", "DELETE", "nhg", 1, noeid=True)}, {"a": "op", "op": _op(35, "DEFAULT", "DELETE", "nh", 1, noeid=True)}]
+            out.append(json.dumps(w))
+    return out
+
+
+REGISTRY["C12"].parts[0].directed = c12_rib_directed
